@@ -214,6 +214,11 @@ def run(out: common.Outcome, explore: int = 0) -> None:
         if quick and n == 5:
             ts = rnd.sample(ts, explore or 500)
         dom += ts
+    if quick:       # the thorough tier's size, sampled: the three flat 6-leaf trees and a seeded sample of the 27099 trees over 6 events
+        ts6 = domain(6)
+        sizes[6] = len(ts6)
+        flat6 = [t for t in ts6 if all(c[0] == "leaf" for c in t[1])]
+        dom += flat6 + rnd.sample(ts6, 60)
     seeds = [(0, 1)] if quick else [(0, 1), (1, 2), (12345, 3)]
     cases = []
     for t in dom:
@@ -306,7 +311,7 @@ Eval vm_compute in (3%nat, map (fun c => fst (fst c)) (filter (fun c => let '(i,
         "evaluations": len(cases), "distinct_nontrivial": len({tree_key(c[0]) for c in cases if c[0][0] != "leaf"}),
         "rule": "domain = enum_trees n (Coq, proved sound and complete: all gate trees over exactly n distinct events, depth <= 3, "
                 "operators alternating, one representative per unordered tree), n = 1..4 exhaustively + a seeded sample of n = 5 in the "
-                "quick tier, n = 1..6 exhaustively in the thorough tier (n <= 5 under three hash seeds); the family fed to the "
+                "quick tier (plus the flat trees and a seeded sample of 60 trees over 6 events), n = 1..6 exhaustively in the thorough tier (n <= 5 under three hash seeds); the family fed to the "
                 "implementation is the full outcome family of the tree",
         "trusted_base": common.std_trusted_base([
             "translation of pm4py ProcessTree ('+','O','X', leaf, tau) to gtree; any other operator is reported",
